@@ -1,8 +1,10 @@
 #!/bin/sh
-# usage: vf/mutrun.sh <worktree> <patch.diff> <Cnn> [tier]   -- run a check against a seeded mutant in a scratch worktree
-wt=$1; patch=$2; c=$3; tier=${4:-quick}
-git -C $wt checkout -q -- . && git -C $wt apply $patch || { echo "PATCH FAILED"; exit 3; }
-VERIF_REPO=$wt VERIF_KEEP_EVID=1 /verif/check $c $tier > /var/tmp/mutrun.$$.log 2>&1; rc=$?
+# usage: vf/mutrun.sh <patch.diff> <Cnn> [tier]   -- run a check against a seeded change applied to a scratch
+# worktree (/tmp/mut/cur) of /repo's current HEAD
+patch=$1; c=$2; tier=${3:-quick}
+wt=/tmp/mut/cur
+git -C $wt checkout -q --detach $(git -C /repo rev-parse HEAD) && git -C $wt checkout -q -- . && git -C $wt apply $patch || { echo "PATCH FAILED"; exit 3; }
+VERIF_REPO=$wt /verif/check $c $tier > /var/tmp/mutrun.$$.log 2>&1; rc=$?
 grep -c "^VIOLATION" /var/tmp/mutrun.$$.log | sed "s/^/violations: /"
 grep "^VIOLATION" /var/tmp/mutrun.$$.log | head -${MUTSHOW:-3} | cut -c1-${MUTW:-260}
 tail -1 /var/tmp/mutrun.$$.log | cut -c1-200
